@@ -39,7 +39,9 @@ def stage_model(tally, timeout_ms):
     fields = [(ExperimentGroup, "group_definition", "group_definition"), (TerminalPredicate, "left_term", "left_term"),
               (TerminalPredicate, "right_term", "right_term")]
     corpus = [0, 1, -5, 9007199254740993, 10 ** 30, 1.5, -0.25, 3.0, "abc", "02134", "1e5", "inf", " 12 ", "1_000", "", "nan",
-              "7", "-1", "0x10", "1.5", [1, 2, 3], ["a", 1], [[1, 2], 3]]
+              "7", "-1", "0x10", "1.5", [1, 2, 3], ["a", 1], [[1, 2], 3],
+              # sequences that dict() accepts: pydantic would turn them into a model member placed before `tuple`
+              [["name", "alice"], ["plan", "pro"]], [["plan", "pro"], ["name", 5]], ["na", "me"], [["a", 1], ["b", 2]]]
     for cls, fname, position in fields:
         members, smart, allow_none = pm.field_info(cls, fname)
         info["%s.%s" % (cls.__name__, fname)] = {"members": members, "smart_union": smart}
@@ -55,10 +57,18 @@ def stage_model(tally, timeout_ms):
             except Exception:
                 got = ("REJECT",)
             validated += 1
+            if isinstance(want, tuple) and isinstance(got, (list, tuple)) and want != ("REJECT",):
+                got = tuple(got)        # TerminalPredicate keeps what the `tuple` member returns
             same = type(got) is type(want) and (got == want or (got != got and want != want))
             if not same:
                 raise common.Inconclusive("pydantic model disagrees with the installed pydantic on %s=%r: model %r, real %r"
                                           % (fname, v, want, got))
+        if fname != "group_definition":
+            steps = pm.coerce_kind(members, smart, "list")
+            if steps and steps[0][1] == "coerced-if-dictable":
+                findings.append((position, "tuple", [["name", "alice"], ["plan", "pro"]],
+                                 "a tuple operand that dict() accepts (a tuple of pairs) is tried against the model member %s "
+                                 "before `tuple`: (('name', 'alice'), ('plan', 'pro')) becomes an identifier" % steps[0][0]))
         for kind in ("int", "float", "str"):
             steps = pm.coerce_kind(members, smart, kind)
             if not steps:
@@ -105,6 +115,11 @@ def stage_model(tally, timeout_ms):
 
 
 def model_witness(position, kind, lit, desc):
+    if kind == "tuple":
+        spelled = "(" + ", ".join("(" + ", ".join('"%s"' % x if isinstance(x, str) else str(x) for x in pair) + ")" for pair in lit) + ")"
+        text = 'def exp { splitters: uid if fld in %s { return "in" weighted 1 } else { return "out" weighted 1 } }' % spelled
+        return {"kind": "eval_value", "text": text, "fields": {"uid": enc("u"), "fld": enc(tuple(lit[1]))},
+                "expected": {"one_of": [enc("in")]}, "why": "%s (operand %s)" % (desc, spelled)}
     if kind == "str":
         q = lf.quote(lit)
         if q is None:
